@@ -314,13 +314,18 @@ class Buffer:
                 self._add_event(current_obs, "transfer", "stopped")
                 break
 
+            # Both tiers move data at the slower of the two rates
+            rate = min(
+                self.hot[b].max_ingest_data_rate, self.cold[b].max_data_rate
+            )
             check = self.cold[b].receive_observation(
                 current_obs,
-                data_left_to_transfer
+                data_left_to_transfer,
+                rate
             )
 
             data_left_to_transfer = self.hot[b].transfer_observation(
-                current_obs, self.cold[b].max_data_rate, data_left_to_transfer
+                current_obs, rate, data_left_to_transfer
             )
             if check != data_left_to_transfer:
                 raise RuntimeError(
@@ -391,15 +396,18 @@ class Buffer:
                 self._add_event(current_obs, "transfer", "stopped")
                 break
 
+            # Both tiers move data at the slower of the two rates
+            rate = min(
+                self.hot[b].max_ingest_data_rate, self.cold[b].max_data_rate
+            )
             check = self.hot[b].receive_observation(
                 current_obs,
                 data_left_to_transfer,
-                # Pick the slowest rate to transfer
-                min(self.hot[b].max_ingest_data_rate, self.cold[b].max_data_rate)
+                rate
             )
 
             data_left_to_transfer = self.cold[b].transfer_observation(
-                current_obs, self.cold[b].max_data_rate, data_left_to_transfer
+                current_obs, rate, data_left_to_transfer
             )
             if check != data_left_to_transfer:
                 raise RuntimeError(
@@ -833,7 +841,7 @@ class ColdBuffer:
             self.observations['transfer'] = None
         return residual_data
 
-    def receive_observation(self, observation, residual_data):
+    def receive_observation(self, observation, residual_data, data_rate=None):
         """
         For an observation that needs to be moved to ColdBuffer storage,
         we must 'receive' it.
@@ -845,21 +853,26 @@ class ColdBuffer:
 
         residual_data : int
             How much data is left to transfer
+
+        data_rate : int
+            The rate of the transfer (defaults to the ColdBuffer's rate)
         Returns
         -------
         residual_data
-            Decremented value of residual_data by the data_rate of ColdBuffer
+            Decremented value of residual_data by the data_rate
         """
 
         self.observations['transfer'] = observation
+        if data_rate is None:
+            data_rate = self.max_data_rate
 
         if self.max_data_rate > 0:
-            if residual_data < self.max_data_rate:
+            if residual_data < data_rate:
                 self.current_capacity -= residual_data
                 residual_data = 0
             else:
-                self.current_capacity -= self.max_data_rate
-                residual_data -= self.max_data_rate
+                self.current_capacity -= data_rate
+                residual_data -= data_rate
 
         else:
             self.current_capacity -= observation.total_data_size
